@@ -33,6 +33,10 @@ ASSUMPTIONS = [
 ]
 
 MUTANTS = [
+    ("blank grid nodes enter the interpolation as zero", "AegeanTools/BANE.py",
+     "    ifunc = RegularGridInterpolator((rows, cols), vals)",
+     "    ifunc = RegularGridInterpolator((rows, cols), np.nan_to_num(vals))",
+     "C06-R9"),
     ("subtract own rows only", "AegeanTools/BANE.py",
      "    data -= ibkg[data_row_min:data_row_max, :]\n",
      "    data[0 + ymin - data_row_min: data.shape[0] -\n"
@@ -626,6 +630,26 @@ def run(ctx):
               "numpy arrays are (rows=NAXIS2, columns=NAXIS1)",
               node=shp[0] if shp else fimg.node)
     r6_precision(ctx, prog)
+    from ..precision import nan_replaced
+    ctx.rule("C06-R9", "blank stays blank inside the estimator: in "
+             "sigma_filter / sigmaclip no NaN is turned into a number "
+             "(nan_to_num, where(isnan, 0, x), x[isnan] = 0) -- a grid node "
+             "without finite pixels must not enter the interpolation as 0, "
+             "or the background next to a blank block is dragged towards 0 "
+             "(constant image -> constant, background within the range of "
+             "the finite pixels)")
+    n9 = 0
+    for short in ("BANE.sigma_filter", "BANE.sigmaclip", "BANE._sf2"):
+        if not prog.has_func(short):
+            continue
+        fi9 = prog.func(short)
+        n9 += 1
+        rep = nan_replaced(prog, fi9)
+        ctx.check("C06-R9", fi9, "no NaN replaced by a number in " + short,
+                  not rep, "%s: %s" % (rep[0][1] if rep else "",
+                                       norm(rep[0][0], 70) if rep else ""),
+                  node=rep[0][0] if rep else fi9.node)
+    ctx.floor("C06-R9", n9, 2, "estimator functions examined")
     from .c20 import r5_planes
     r5_planes(ctx, prog, rule="C06-R8")
     # ---------------------------------------------------------------- R7
